@@ -180,16 +180,15 @@ Proof. intros. unfold remove. now rewrite String.eqb_refl. Qed.
 Lemma remove_other : forall m id x, x <> id -> remove m id x = m x.
 Proof. intros m id x H. unfold remove. apply String.eqb_neq in H. now rewrite H. Qed.
 
-Section Mapper.
-  Variable e : exch.
-  Variable sk : skind.
+Section MapIds.
+  Variable idf : sub -> string.
 
-  Let step (m : imap) (s : sub) : imap := insert m (sid e sk s) (fst s).
+  Let step (m : imap) (s : sub) : imap := insert m (idf s) (fst s).
 
   (** the table holds, for an id, the key of the LAST subscription with that id *)
   Lemma fold_insert_spec : forall subs m x,
     fold_left step subs m x =
-    match find (fun s => String.eqb (sid e sk s) x) (rev subs) with
+    match find (fun s => String.eqb (idf s) x) (rev subs) with
     | Some s => Some (fst s)
     | None => m x
     end.
@@ -200,45 +199,68 @@ Section Mapper.
               match find p l with Some y => Some y | None => if p s then Some s else None end).
     { induction l as [|a l IHl]; intros p; cbn; [reflexivity|]. destruct (p a); [reflexivity|apply IHl]. }
     rewrite Hfind. destruct (find _ (rev subs)); [reflexivity|].
-    unfold step, insert. rewrite String.eqb_sym. now destruct (String.eqb (sid e sk s) x).
+    unfold step, insert. rewrite String.eqb_sym. now destruct (String.eqb (idf s) x).
   Qed.
 
-  Lemma map_subs_spec : forall subs x,
-    map_subs e sk subs x =
-    option_map fst (find (fun s => String.eqb (sid e sk s) x) (rev subs)).
+  Lemma map_ids_spec : forall subs x,
+    map_ids idf subs x = option_map fst (find (fun s => String.eqb (idf s) x) (rev subs)).
   Proof.
-    intros subs x. unfold map_subs. change (fun m s => insert m (sid e sk s) (fst s)) with step.
+    intros subs x. unfold map_ids. change (fun m s => insert m (idf s) (fst s)) with step.
     rewrite fold_insert_spec. now destruct (find _ _).
   Qed.
 
-  (** every entry comes from a subscription *)
-  Lemma map_subs_sound : forall subs x k,
-    map_subs e sk subs x = Some k -> exists s, In s subs /\ sid e sk s = x /\ fst s = k.
+  Lemma map_ids_sound : forall subs x k,
+    map_ids idf subs x = Some k -> exists s, In s subs /\ idf s = x /\ fst s = k.
   Proof.
-    intros subs x k H. rewrite map_subs_spec in H.
+    intros subs x k H. rewrite map_ids_spec in H.
     destruct (find _ (rev subs)) as [s|] eqn:F; [|discriminate].
     apply find_some in F as [Hin Heq]. apply in_rev in Hin. apply String.eqb_eq in Heq.
     cbn in H. injection H as <-. now exists s.
   Qed.
 
-  Lemma map_subs_miss : forall subs x,
-    (forall s, In s subs -> sid e sk s <> x) -> map_subs e sk subs x = None.
+  Lemma map_ids_miss : forall subs x,
+    (forall s, In s subs -> idf s <> x) -> map_ids idf subs x = None.
   Proof.
-    intros subs x H. destruct (map_subs e sk subs x) as [k|] eqn:E; [|reflexivity].
-    apply map_subs_sound in E as (s & Hin & Hs & _). now elim (H s Hin).
+    intros subs x H. destruct (map_ids idf subs x) as [k|] eqn:E; [|reflexivity].
+    apply map_ids_sound in E as (s & Hin & Hs & _). now elim (H s Hin).
   Qed.
 
-  Lemma map_subs_hit : forall subs s,
+  Lemma map_ids_hit : forall subs s,
     In s subs ->
-    (forall s', In s' subs -> sid e sk s' = sid e sk s -> fst s' = fst s) ->
-    map_subs e sk subs (sid e sk s) = Some (fst s).
+    (forall s', In s' subs -> idf s' = idf s -> fst s' = fst s) ->
+    map_ids idf subs (idf s) = Some (fst s).
   Proof.
-    intros subs s Hin Hd. rewrite map_subs_spec.
+    intros subs s Hin Hd. rewrite map_ids_spec.
     destruct (find _ (rev subs)) as [s'|] eqn:F.
     - apply find_some in F as [Hin' Heq]. apply in_rev in Hin'. apply String.eqb_eq in Heq.
       cbn. f_equal. now apply Hd.
     - apply in_rev in Hin. apply (find_none _ _ F s) in Hin. rewrite String.eqb_refl in Hin. discriminate.
   Qed.
+End MapIds.
+
+Section Mapper.
+  Variable e : exch.
+  Variable sk : skind.
+
+  Lemma map_subs_spec : forall subs x,
+    map_subs e sk subs x =
+    option_map fst (find (fun s => String.eqb (sid e sk s) x) (rev subs)).
+  Proof. intros; apply map_ids_spec. Qed.
+
+  (** every entry comes from a subscription *)
+  Lemma map_subs_sound : forall subs x k,
+    map_subs e sk subs x = Some k -> exists s, In s subs /\ sid e sk s = x /\ fst s = k.
+  Proof. intros subs x k. apply map_ids_sound. Qed.
+
+  Lemma map_subs_miss : forall subs x,
+    (forall s, In s subs -> sid e sk s <> x) -> map_subs e sk subs x = None.
+  Proof. intros subs x. apply map_ids_miss. Qed.
+
+  Lemma map_subs_hit : forall subs s,
+    In s subs ->
+    (forall s', In s' subs -> sid e sk s' = sid e sk s -> fst s' = fst s) ->
+    map_subs e sk subs (sid e sk s) = Some (fst s).
+  Proof. intros subs s. apply (map_ids_hit (sid e sk)). Qed.
 
   Lemma map_subs_domain_bar : forall subs x k, map_subs e sk subs x = Some k -> has_bar x = true.
   Proof.
